@@ -98,6 +98,9 @@ def create_wait_strategy(
                 and (config.backoff_rate > 0 or (attempts_made - 1) % 2 == 0)
                 else 0
             )
+        # a negative product ends at the 1 second minimum anyway; -inf (a negative rate one step below
+        # the overflow) cannot be rounded
+        base_delay = max(base_delay, 0)
 
         # Apply jitter to get final delay
         delay_with_jitter: float = config.jitter_strategy.apply_jitter(base_delay)
